@@ -12,7 +12,7 @@ import vlib, fam
 
 CLAUSES = ["LocalUnaffected", "OthersUnaffected", "NoHang", "AllocBounded", "DecoderNoPanic", "ReencodeStable"]
 FRAMES = ["pid", "name", "alias", "call", "callname", "exit", "any", "z"]
-VALUES = ["int", "string", "binary", "atom", "float", "pid", "ref", "alias", "slice", "slice2", "map", "mapany", "anys", "struct", "named", "error", "time", "array", "nested", "bool"]
+VALUES = ["int", "string", "binary", "atom", "float", "pid", "ref", "alias", "slice", "slice2", "map", "mapany", "anys", "struct", "named", "error", "time", "array", "array2", "array3", "nested", "bool"]
 TYPES = [0, 1, 100, 101, 102, 103, 104, 105, 106, 107, 121, 122, 123, 124, 129, 130, 181, 182, 183, 184, 185, 186, 199, 200, 201, 202, 203, 250, 255]
 
 FRAME_CFGS = [  # (name, Lens, Decl, MaxMsg, Fix, invariant expected to be violated or None)
@@ -62,23 +62,26 @@ def cases(tier, rng):
             L(fr, "type", t)
         for cut in (range(8, 60) if tier == "thorough" else rng.sample(range(8, 60), 8)):
             L(fr, "trunc", cut)
-        for k in range(20 if tier == "thorough" else 4):
+        for k in range(60 if tier == "thorough" else 4):
             L(fr, "flip", rng.randint(0, 10000))
     for sz in (0, 1, 100, 2999, 3001, 10 ** 6, 10 ** 8, 3 * 10 ** 8):
         L("z", "zsize", sz)
     for k in (0, 1, 99, 100, 101, 102, 103, 255):
         L("z", "zkind", k)
-    for k in range(60 if tier == "thorough" else 12):
+    for k in range(600 if tier == "thorough" else 12):
         L("pid", "raw", rng.randint(0, 100000))
     def E(value, mut, arg, arg2=0):
         edf.append({"id": 100000 + len(edf), "value": value, "mut": mut, "arg": arg, "arg2": arg2})
     for v in VALUES:
         E(v, "none", 0)
-        rngpos = range(0, 130) if tier == "thorough" else sorted(rng.sample(range(0, 130), 24))
+        rngpos = range(0, 260) if tier == "thorough" else sorted(rng.sample(range(0, 130), 24))
         for pos in rngpos:
             E(v, "trunc", pos)
             E(v, "setff", pos, 0); E(v, "setff", pos, 1)
             E(v, "set00", pos)
+            if v in ("array2", "array3", "slice2", "nested"):
+                for d in (1, 2, 3, 4, 5, 6, 7, 8):
+                    E(v, "setff2", pos, d)
             for t in (range(0, 22) if tier == "thorough" else rng.sample(range(0, 22), 3)):
                 E(v, "tag", pos, t)
         for pos in (range(0, 40) if tier == "thorough" else rng.sample(range(0, 40), 4)):
